@@ -48,3 +48,21 @@ func (db *DB) VerifCounters() (int64, int64, uint) {
 
 // VerifMergePath returns the merge directory of this database.
 func (db *DB) VerifMergePath() string { return db.mergePath() }
+
+// VerifFiles returns all open data files in ascending id order (active last).
+func (db *DB) VerifFiles() []*datafile.DataFile {
+	ids := db.VerifOlderIDs()
+	for i := 1; i < len(ids); i++ {
+		for j := i; j > 0 && ids[j-1] > ids[j]; j-- {
+			ids[j-1], ids[j] = ids[j], ids[j-1]
+		}
+	}
+	fs := make([]*datafile.DataFile, 0, len(ids)+1)
+	for _, id := range ids {
+		fs = append(fs, db.olderFiles[id])
+	}
+	if db.activeFile != nil {
+		fs = append(fs, db.activeFile)
+	}
+	return fs
+}
